@@ -1,5 +1,6 @@
 """C11 — each header/footer kind has exactly one, current, resolvable definition (spec module HdrFtr)."""
 import collections, copy
+import vlib
 
 MANIFEST = dict(
     module="HdrFtr", ref="§5 C11",
@@ -48,7 +49,7 @@ ALIGNS = ["center", "right", "both", "left", ""]
 def small(seed, **over):
     """One argument class per slot, rotated by the seed."""
     a = dict(HfC={"h", "f"}, KindsC={"default", "first", "even"}, TextC={TEXTS[seed % len(TEXTS)]}, ShowC={True},
-             FmtC={FMTS[seed % len(FMTS)]}, AlignC={ALIGNS[seed % len(ALIGNS)]}, CfgNilC={False},
+             FmtC={FMTS[seed % 2], FMTS[2 + seed % 3]}, AlignC={ALIGNS[seed % 4]}, CfgNilC={False},
              PageC={sorted(PAGE_ALL)[seed % len(PAGE_ALL)]}, ViaC={"mem"}, RViaC={"doc"}, DataC={"def"})
     a.update(over)
     return a
@@ -70,14 +71,15 @@ def plans(seed, q):
     core = ["AddHeader", "AddFooterWithPageNumber", "AddFormattedHeader", "SetDifferentFirstPage", "AddImage", "ToBytes", "Reopen", "Render"]
     P = [
         # the whole alphabet, one argument class per slot
-        ("all", ALLOPS, small(seed), 2),
-        # every constructor pair / same kind twice and thrice, headers and footers
-        ("hf", HF6, small(seed, TextC={"plain"} if seed % 2 else {"var"}), 2 if q else 3),
+        ("all", ALLOPS, small(seed, CfgNilC={True}), 2),
+
         # constructors of two kinds interleaved with what must not disturb them, deeper
-        ("core", core, small(seed, KindsC={"default", "first"} if seed % 2 else {"even", "default"}, TextC={"var"}), 3 if q else 4),
+        ("core", core, small(seed, KindsC={"default", "first"} if seed % 2 else {"even", "default"}, TextC={"var"}, FmtC={FMTS[2 + seed % 3]}), 3 if q else 4),
     ]
     if not q:
         P += [
+            # every constructor triple / same kind twice and thrice, headers and footers (pairs are part of "all")
+            ("hf", HF6, small(seed, TextC={"plain"} if seed % 2 else {"var"}, FmtC={FMTS[seed % 2]}), 3),
             ("hdr4", ["AddHeader", "AddHeaderWithPageNumber", "AddFormattedHeader"], small(seed, HfC={"h"}, TextC={"plain"}), 4),
             ("ftr4", ["AddFooter", "AddFooterWithPageNumber", "AddFormattedFooter", "Reopen"],
              small(seed, HfC={"f"}, KindsC={"first", "even"}, TextC={"cjk"}, ViaC={"file"}), 4),
@@ -108,7 +110,7 @@ def with_variants(cases):
     return out
 
 
-CHUNK = 6000   # behaviours per judge run (the judge reads its whole observation file into one TLA+ value)
+CHUNK = 9000   # behaviours per judge run (the judge reads its whole observation file into one TLA+ value)
 
 
 def pipeline(ctx, cases_by=None):
@@ -117,6 +119,11 @@ def pipeline(ctx, cases_by=None):
     ctx.tlc_mc("HdrFtr_MC.tla", "HdrFtr_MC_quick.cfg" if q else "HdrFtr_MC_thorough.cfg", workers=4 if q else 8)
     if not q:
         ctx.tlc_mc("HdrFtr_MC.tla", "HdrFtr_MC_deep.cfg", workers=8)
+    # non-vacuity: the design of the pinned tree (a repeated call appends) must violate the invariant
+    rc, out, gen, dist = ctx._tlc("HdrFtr_MC.tla", "HdrFtr_MC_append_cex.cfg", [], 300, workers=2)
+    if "Invariant Inv_C11 is violated" not in out:
+        raise vlib.Machinery("HdrFtr_MC_append_cex.cfg: the append design no longer violates Inv_C11 (vacuous invariant?):\n" + vlib.tail(out))
+    ctx.extra_cov["non_vacuity"] = "HdrFtr_MC_append_cex.cfg (Design = append, the pinned tree's behaviour): TLC reports Inv_C11 violated"
     if cases_by is None:
         cnt = collections.Counter()
         allc, depths = [], {}
@@ -132,7 +139,7 @@ def pipeline(ctx, cases_by=None):
             pools = dict(WIDE, FmtC={"nil", FMTS[r % 4]}, AlignC={"", ALIGNS[r % 4]}, TextC={"empty", "var", TEXTS[r % 4]},
                          PageC=set(sorted(PAGE_ALL)[r % 5::5]))
             allc += ctx.tlc_gen("HdrFtr_MC.tla", gencfg(ctx, "gen_sim%d.cfg" % k, ALLOPS, pools, d, last=["ToBytes", "Save"]),
-                                "sim%d" % k, mode="sim", num=30 if q else 100, depth=d + 1, seed_off=k)
+                                "sim%d" % k, mode="sim", num=20 if q else 100, depth=d + 1, seed_off=k)
         for c in allc:
             for s in c["steps"]:
                 cnt[s["op"] + (":" + s["which"] if "which" in s else "")] += 1
